@@ -12,7 +12,8 @@ def rotl(l, k):
 class BRule:
     """rev | rot | swapif | sumrot | probe:k | counter:k | short"""
 
-    def __init__(self, spec):
+    def __init__(self, spec, inplace=False):
+        self.inplace = inplace      # a 2-D block rule may update the block it was handed in place and return it
         self.spec = spec
         p = spec.split(":")
         self.name = p[0]
@@ -49,4 +50,10 @@ class BRule:
         blk = [int(x) for x in a.ravel().tolist()]
         self.log.append((blk, int(t)))
         out = self.flat(blk, int(t))
+        if self.inplace and isinstance(n, np.ndarray) and len(out) == a.size:
+            try:
+                n[...] = np.array(out).reshape(a.shape)
+                return n
+            except (ValueError, TypeError):
+                pass
         return np.array(out).reshape(a.shape)
